@@ -121,6 +121,65 @@ func ruleR26(c *Ctx) {
 		}
 		return v
 	}
+	isTreeMethod := func(u *FuncUnit) bool {
+		for _, tk := range m.Trees {
+			for _, mu := range tk.Methods {
+				if mu == u {
+					return true
+				}
+			}
+		}
+		return false
+	}
+	paramIndex := func(u *FuncUnit, v *types.Var) int {
+		if u.Decl == nil || u.Lit != nil {
+			return -1
+		}
+		i := 0
+		for _, f := range u.Decl.Type.Params.List {
+			for _, nm := range f.Names {
+				if info.Defs[nm] == v {
+					return i
+				}
+				i++
+			}
+		}
+		return -1
+	}
+	// paramFreshAtCalls: every call of helper u in a byte-keyed tree passes, for parameter pi, a
+	// slice the library allocated itself
+	var allUnits []*FuncUnit
+	paramFreshAtCalls := func(u *FuncUnit, pi int) (okAll bool, nCalls int, badAt string) {
+		okAll = true
+		for _, cu := range allUnits {
+			cfl := c.e.flow(cu)
+			cfl.walk(func(cn ast.Node, cfs *FactSet, _ ast.Node, _ *cfg.Block) {
+				call, ok := cn.(*ast.CallExpr)
+				if !ok || pi >= len(call.Args) {
+					return
+				}
+				if f := m.staticCallee(call); f == nil || f != u.Obj {
+					return
+				}
+				// only call sites inside the byte-keyed kinds matter
+				isByteKind := false
+				for _, tk := range c.byteKeyKinds() {
+					if cu.Recv == tk.Name {
+						isByteKind = true
+					}
+				}
+				if !isByteKind {
+					return
+				}
+				nCalls++
+				if !cfl.freshExpr(call.Args[pi], cfs, 0) {
+					okAll = false
+					badAt = cu.Name + " at " + m.pos(call.Pos())
+				}
+			})
+		}
+		return
+	}
 	nW, nR := 0, 0
 	// captured variables used at sinks inside local closures: checked at the closure's call sites
 	type deferred struct {
@@ -135,6 +194,7 @@ func ruleR26(c *Ctx) {
 			units = append(units, u)
 		}
 	}
+	allUnits = units
 	for _, u := range units {
 		fl := c.e.flow(u)
 		props := []string{"C13"}
@@ -158,6 +218,13 @@ func ruleR26(c *Ctx) {
 			if fs.isFresh(v) {
 				c.r.ok("R26", key, m.pos(node.Pos()), v.Name()+" is known to refer to memory allocated by the library (copy) on every path", props...)
 				return
+			}
+			// a parameter of a helper (newLeaf(key, …)): the obligation moves to its call sites
+			if pi := paramIndex(u, v); pi >= 0 && !isTreeMethod(u) && !assignedAnywhere(info, u.Body, v) {
+				if okAll, nCalls, _ := paramFreshAtCalls(u, pi); okAll && nCalls > 0 {
+					c.r.ok("R26", key, m.pos(node.Pos()), fmt.Sprintf("parameter %s: every one of the %d call sites in byte-keyed trees passes a copy made by the library", v.Name(), nCalls), props...)
+					return
+				}
 			}
 			if kind == "W" {
 				c.r.bad("R26", key, m.pos(node.Pos()), fmt.Sprintf("%s may alias the caller's key slice here and is written to (an append writes into the spare capacity of the caller's backing array)", v.Name()), props...)
@@ -294,31 +361,6 @@ func ruleR26(c *Ctx) {
 	// ---- escaping closures (returned sequences, predicates handed to a scan) are evaluated after
 	// the API call has returned: a slice they capture must be library-owned memory
 	nEsc := 0
-	isTreeMethod := func(u *FuncUnit) bool {
-		for _, tk := range m.Trees {
-			for _, mu := range tk.Methods {
-				if mu == u {
-					return true
-				}
-			}
-		}
-		return false
-	}
-	paramIndex := func(u *FuncUnit, v *types.Var) int {
-		if u.Decl == nil || u.Lit != nil {
-			return -1
-		}
-		i := 0
-		for _, f := range u.Decl.Type.Params.List {
-			for _, nm := range f.Names {
-				if info.Defs[nm] == v {
-					return i
-				}
-				i++
-			}
-		}
-		return -1
-	}
 	for _, u := range units {
 		if u.Lit != nil {
 			continue // literals are visited through the function that declares them
@@ -421,37 +463,7 @@ func ruleR26(c *Ctx) {
 				}
 				pi := paramIndex(u, src)
 				if pi >= 0 && !isTreeMethod(u) {
-					okAll, nCalls, badAt := true, 0, ""
-					for _, cu := range units {
-						cfl := c.e.flow(cu)
-						cfl.walk(func(cn ast.Node, cfs *FactSet, _ ast.Node, _ *cfg.Block) {
-							call, ok := cn.(*ast.CallExpr)
-							if !ok || pi >= len(call.Args) {
-								return
-							}
-							if f := m.staticCallee(call); f == nil || f != u.Obj {
-								return
-							}
-							// only call sites inside the byte-keyed kinds matter
-							if !strings.Contains(cu.Name, ".") {
-								return
-							}
-							isByteKind := false
-							for _, tk := range c.byteKeyKinds() {
-								if cu.Recv == tk.Name {
-									isByteKind = true
-								}
-							}
-							if !isByteKind {
-								return
-							}
-							nCalls++
-							if !cfl.freshExpr(call.Args[pi], cfs, 0) {
-								okAll = false
-								badAt = cu.Name + " at " + m.pos(call.Pos())
-							}
-						})
-					}
+					okAll, nCalls, badAt := paramFreshAtCalls(u, pi)
 					if okAll {
 						c.r.ok("R26", key, m.pos(lit.Pos()), fmt.Sprintf("parameter %s: every one of the %d call sites in byte-keyed trees passes a copy made by the library", src.Name(), nCalls), props...)
 					} else {
@@ -656,4 +668,27 @@ func (c *Ctx) scratchField(lhs ast.Expr) string {
 		return ""
 	}
 	return fmt.Sprintf("exception %s.%s: codec scratch that no function reachable from the Tree API reads (its only reader, Restore, is never called by the collation tree), so the retained slice is unobservable and bounded to one key", owner.Obj().Name(), field.Name())
+}
+
+
+// assignedAnywhere: v is the target of an assignment or inc/dec in body (its definition as a
+// parameter does not count).
+func assignedAnywhere(info *types.Info, body ast.Node, v *types.Var) bool {
+	found := false
+	ast.Inspect(body, func(n ast.Node) bool {
+		switch x := n.(type) {
+		case *ast.AssignStmt:
+			for _, l := range x.Lhs {
+				if identVar(info, l) == v {
+					found = true
+				}
+			}
+		case *ast.IncDecStmt:
+			if identVar(info, x.X) == v {
+				found = true
+			}
+		}
+		return !found
+	})
+	return found
 }
